@@ -287,6 +287,7 @@ def check_C12(run):
     def on_broken(failed):
         return dict(found_by='link-text round trip on the real doer / L4 link stream', **fails[0]) if fails else None
     C.proofs_step(run, 'C12', on_broken)
+    from . import trials as _trials; _trials.run_trials(run, 'C12')
     if fails and not any(not v[1] for v in run.violations):
         run.violation(dict(kind='oracle-failed-on-implementation', oracle='links are leaves: targets untouched; text carried as the rule says; re-created iff the text changed', failing_cases=len(fails), **fails[0]))
     run.cov['trusted_base'] = C.GLOBAL_TRUST + ['PARTIAL: "nothing is reached through a link" is the model\'s escape outcome: validated (L2 oracle on the implementation\'s traces, L3 doer-model stream, L4 decoy snapshots), not proved for whole runs',
@@ -445,6 +446,7 @@ def check_C04(run):
     def on_broken(failed):
         return dict(found_by='write-then-list round trips on the real doer / two consecutive CLI runs', **fails[0]) if fails else None
     C.proofs_step(run, 'C04', on_broken)
+    from . import trials as _trials; _trials.run_trials(run, 'C04')
     if fails and not any(not v[1] for v in run.violations):
         run.violation(dict(kind='oracle-failed-on-implementation', oracle='a second identical run reports nothing to do and changes no byte, time stamp or inode', failing_cases=len(fails), **fails[0]))
     run.cov['trusted_base'] = C.GLOBAL_TRUST + ['the host file system keeps nanosecond mtimes (a coarser destination file system is outside the model and would make equal files look different)',
